@@ -19,7 +19,7 @@ import vlib
 from tracecheck import TraceChecker
 
 TIERS = {"quick": dict(hist=[("pfx", 11, 2, 22, 12), ("pfx", 12, 1, 45, 40), ("spki", 21, 1, 40, 12), ("spki", 22, 2, 25, 40)], fsm_exec=1, max_k=400),
-         "thorough": dict(hist=[("pfx", 100 + i, 2, 40, 30) for i in range(12)] + [("spki", 200 + i, 3, 30, 20) for i in range(12)], fsm_exec=25, max_k=4000)}
+         "thorough": dict(hist=[("pfx", 100 + i, 2, 40, 30) for i in range(12)] + [("spki", 200 + i, 3, 30, 20) for i in range(12)], fsm_exec=10, max_k=4000)}
 
 
 def inject_site(out):
@@ -106,24 +106,30 @@ def run(ctx):
     if not ctx.replay:
         import fsmgen
         exe_f = vlib.build_harness(pid, "asan", ["fsm_harness.c"], objs, wraps=["sleep", "lrtr_get_monotonic_time"], exe="h_fsm")
-        sc = os.path.join(wd, "fsm_script.ndjson")
-        fsmgen.write_reload_script(sc, seed + 77, P["fsm_exec"])
-        rc, out = vlib.sh([exe_f, sc, os.path.join(wd, "fsm_count.ndjson")], env=dict(vlib.SAN_ENV, VH_COUNT_ALLOCS="1"), timeout=300)
-        m = re.search(r"ALLOCS (\d+) LIVE (-?\d+) MISUSE (\d+)", out)
-        if rc != 0 or not m:
-            verdict.deviation("C18:failure-free-sync-dies@%s" % crash_site(out), "fsm conversations with the tagged allocator: exit %d: %s" % (rc, out[-400:]), None)
-        else:
+        # one conversation per script: every allocation of that conversation fails in turn (the whole script is re-run per
+        # failure point, so short scripts keep the total trace linear in the number of conversations)
+        cov["sync"] = []
+        for ci in range(P["fsm_exec"]):
+            sc = os.path.join(wd, "fsm_script%d.ndjson" % ci)
+            fsmgen.write_reload_script(sc, seed + 77 + ci, 1)
+            rc, out = vlib.sh([exe_f, sc, os.path.join(wd, "fsm_count.ndjson")], env=dict(vlib.SAN_ENV, VH_COUNT_ALLOCS="1"), timeout=300)
+            m = re.search(r"ALLOCS (\d+) LIVE (-?\d+) MISUSE (\d+)", out)
+            if rc != 0 or not m:
+                verdict.deviation("C18:failure-free-sync-dies@%s" % crash_site(out), "fsm conversations with the tagged allocator: exit %d: %s" % (rc, out[-400:]), None)
+                continue
             n, live, misuse = int(m.group(1)), int(m.group(2)), int(m.group(3))
             if live != 0 or misuse != 0:
                 verdict.deviation("C18:allocator-imbalance-sync", "after stopping the socket and freeing the tables %d blocks remain, %d foreign frees" % (live, misuse), None)
-            step = max(1, n // (400 if tier == "quick" else 4000))
+            step = max(1, n // 400)
             tcf = TraceChecker(ctx, verdict, wd, "RtrSocketTrace", "RtrSocketTrace.cfg", "OK_C18", timeout=1800)
-            bigf = os.path.join(wd, "fsm_all.ndjson")
+            bigf = os.path.join(wd, "fsm_all%d.ndjson" % ci)
+            runs_here = 0
             with open(bigf, "w") as bf:
                 for k in range(1, n + 1, step):
                     tr = os.path.join(wd, "kf.ndjson")
                     rc, out = vlib.sh([exe_f, sc, tr], env=dict(vlib.SAN_ENV, VH_FAIL_AT=str(k), VH_ALARM="120"), timeout=200)
                     fsm_runs += 1
+                    runs_here += 1
                     if rc != 0:
                         site = inject_site(out)
                         sites[site] = sites.get(site, 0) + 1
@@ -133,15 +139,16 @@ def run(ctx):
                         continue
                     bf.write(open(tr).read())
             if os.path.getsize(bigf) > 0:
-                tcf.validate(bigf, "fsm", {"script": sc, "seed": seed}, [sc])
+                tcf.validate(bigf, "fsm%d" % ci, {"script": sc, "seed": seed}, [sc])
                 traces_ok += tcf.traces
-            cov["sync"] = {"allocations": n, "failed_one_at_a_time": fsm_runs, "step": step}
+            os.remove(bigf)
+            cov["sync"].append({"script_seed": seed + 77 + ci, "allocations": n, "failed_one_at_a_time": runs_here, "step": step})
     if ctx.replay:
         return verdict.finish()
     rcode = verdict.finish()
     vlib.write_evidence(pid, tier, seed, "fault_enumeration", {
         "evaluations": total_runs + fsm_runs, "distinct_nontrivial": max(2, total_runs + fsm_runs - 0),
-        "rule": "one run per (history, k): the k-th allocation fails; every k of every table history is tried (sync conversations: every %s-th); a run is non-trivial when the failure is injected, which by construction is every run (distinct k)" % cov.get("sync", {}).get("step", "n"),
+        "rule": "one run per (history, k): the k-th allocation fails; every k of every table history is tried (sync conversations: every %s-th); a run is non-trivial when the failure is injected, which by construction is every run (distinct k)" % (max([x["step"] for x in cov.get("sync", [])] or [1])),
         "samples": samples[:4] or [{"note": "no operation observed an injected failure"}],
         "traces_validated_against_impl": traces_ok, "crash_sites": sites,
         "known_findings_hit": [k for k, _ in verdict.known], "detail": cov,
